@@ -9,6 +9,7 @@ import (
 	"github.com/hashicorp/go-hclog"
 	"github.com/hashicorp/raft"
 
+	"github.com/hashicorp/consul/agent/connect/ca"
 	"github.com/hashicorp/consul/agent/consul/fsm"
 	"github.com/hashicorp/consul/agent/consul/state"
 	"github.com/hashicorp/consul/agent/structs"
@@ -104,3 +105,23 @@ func VerifNewCAManager12(d *VerifCADelegate12, dc string, caConfig *structs.CACo
 
 // VerifSetTimeNow12 replaces the manager's clock (root expiry check).
 func VerifSetTimeNow12(c *CAManager, f func() time.Time) { c.timeNow = f }
+
+// VerifProviderRoot12 returns the ID of the root the manager signs with ("" when none).
+func VerifProviderRoot12(c *CAManager) string {
+	c.providerLock.RLock()
+	defer c.providerLock.RUnlock()
+	if c.providerRoot == nil {
+		return ""
+	}
+	return c.providerRoot.ID
+}
+
+// VerifProviderID12 returns the provider-state id of the manager's current Consul CA provider.
+func VerifProviderID12(c *CAManager) string {
+	c.providerLock.RLock()
+	defer c.providerLock.RUnlock()
+	if c.provider == nil {
+		return ""
+	}
+	return ca.VerifConsulProviderID12(c.provider)
+}
